@@ -179,12 +179,24 @@ class G:
         self.labels.add("reloc")
         if n in ("char *", "const char *"):
             k = d(st.integers(0, 4))
+            if getattr(self, "nlong", 0) and d(st.booleans()):
+                k = 1
             if k == 0:
                 return "0"
             if k == 1:
                 # (escapes followed by multi-byte characters: each character is encoded on its own, whatever preceded it)
+                if d(st.integers(0, 2)) == 0 or (getattr(self, "nlong", 0) and d(st.integers(0, 2))):
+                    self.nlong = getattr(self, "nlong", 0) + 1
+                    if self.nlong > 1:
+                        self.labels.add("long-literals-with-common-head")
+                    # long literals that agree in a long head (62, 63, 64, 65 and more bytes) and differ behind it, or only in length
+                    head = "usage: prog [-abcdefgh] [-o output] [-I directory] input-file .. "
+                    return '"%s"' % d(st.sampled_from([head[:62], head[:63], head[:64], head, head + "(short form)", head + "(long form, with more text)", head[:64] + "x", head[:64] + "y"]))
                 return '"%s"' % d(st.sampled_from(["", "abc", "hello", "x\\ty", "\\033[1m\u00e9\\033[0m", "ab\\0\u2717", "\\1\u00e9", "\u00e9\\x41\" \"\u00e9", "\\377\U0001f600z"]))
             if k == 2:
+                if d(st.integers(0, 3)) == 0:
+                    head = "usage: prog [-abcdefgh] [-o output] [-I directory] input-file .. "
+                    return '"%s" + %d' % (d(st.sampled_from([head + "(short form)", head + "(long form, with more text)", head])), d(st.sampled_from([0, 1, 63, 64, 65])))
                 return '"%s" + %d' % (d(st.sampled_from(["abcdef", "012345678"])), d(st.integers(0, 5)))
             if k == 3:
                 return "&gchars[%d]" % d(st.integers(0, 15))
